@@ -65,9 +65,11 @@ class QsModel:
     """Observer + oracle.  Raises kernel.Violation from inside the callbacks; the driver
     lets it propagate (the run stops at the first violation)."""
 
-    def __init__(self, sim=None, whitebox=True):
+    def __init__(self, sim=None, whitebox=True, own=None):
         self.sim = sim
         self.whitebox = whitebox
+        self.own = own  # the property whose check is running (None: every class is fatal)
+        self.foreign_seen = {}
         self.jobs = {}  # id -> current incarnation (present in the server's table)
         self.count = 0
         self.pulls = {}  # conn -> channels
@@ -88,7 +90,14 @@ class QsModel:
     def probe(self, name, n=1):
         self.probes[name] = self.probes.get(name, 0) + n
 
+    # violation classes that are pure observations at a quiescent point: the model's state
+    # stays right when they are only recorded, so a check that does not own them can go on
+    OBSERVATIONS = ("I-lostwake", "I-loc")
+
     def _fail(self, cls, msg, **detail):
+        if self.own is not None and cls in self.OBSERVATIONS and CLASS2PROP.get(cls) != self.own:
+            self.foreign_seen[cls] = self.foreign_seen.get(cls, 0) + 1
+            return
         raise Violation(cls, msg, detail=detail or None)
 
     def _eligible(self, channels):
@@ -135,7 +144,7 @@ class QsModel:
 
     def snapshot(self, j):
         return {"jobid": j.jobid, "serial": j.serial, "channel": j.channel, "priority": j.priority,
-                "payload": j.payload, "timeout": j.deadline, "done": j.state == "d",
+                "payload": j.payload, "done": j.state == "d",
                 "result": j.result, "error": j.error, "info": j.info,
                 "ttl": j.fin_ttl if j.state == "d" else j.ttl}
 
@@ -342,6 +351,14 @@ class QsModel:
                        got=j.tag(), expected=expected.tag())
         if not immediate:
             self.probe("delivery-by-hand-off")
+            # a hand-off must not bypass a candidate that was already queued: such a job is
+            # unheld, eligible for this puller and was not pushed in this quantum
+            better = [x for x in self._eligible(channels or [])
+                      if x is not j and x not in self.inflight_possible and x.key < j.key]
+            if better:
+                b = min(better, key=lambda x: x.key)
+                self._fail("R-order", f"{conn} (pulling {channels}) was handed {j.tag()} (prio {j.priority}) while "
+                           f"{b.tag()} (prio {b.priority}), queued before, is still waiting", got=j.tag(), expected=b.tag())
         self._cmp_snapshot(j, res, "R-snap", "qpull")
         j.state = "h"
         j.holder = conn
